@@ -12,9 +12,9 @@ CONSTANTS
   BugNoStopWait = FALSE
   BugIgnoreR1 = FALSE
   BugNoTerminate = FALSE
-  BugKeepType = TRUE
+  BugKeepType = FALSE
   BugNoStatus = FALSE
-  BugPreCount = FALSE
+  BugPreCount = TRUE
 VIEW view
 INVARIANTS TypeOK Legal ReadExact WriteExact NowhereElse KindRight HealthyOk FaultIsError FailedInitForgets
 PROPERTY Terminates
